@@ -31,6 +31,9 @@ type ReplayFile struct {
 	// the client panicked); replay draws it afresh from the seed, which
 	// yields the same tape.
 	Regenerate bool `json:"regenerate,omitempty"`
+	// Engine names the engine binary that produced the run (a property may
+	// be decided by more than one).
+	Engine string `json:"engine,omitempty"`
 }
 
 // Guard runs f and swallows the unwinding used by Failf/Infra. Any other
@@ -161,7 +164,7 @@ func Main(t *testing.T, engines map[string]EngineFunc) {
 			res.Violation = &Violation{Prop: rc.Prop, Clause: rc.StallClause, Facts: rc.StallFacts, Msg: detail}
 			if replayDirStall != "" {
 				rf := &ReplayFile{Prop: rc.Prop, Tier: rc.Tier, Seed: rc.Seed, Tape: rc.Tape.Rec,
-					OrigTapeLen: len(rc.Tape.Rec), Violation: res.Violation, Trace: rc.Trace}
+					OrigTapeLen: len(rc.Tape.Rec), Violation: res.Violation, Trace: rc.Trace, Engine: os.Getenv("VERIF_ENGINE")}
 				p := filepath.Join(replayDirStall, fmt.Sprintf("%s-seed%d-%s.json", rc.Prop, rc.Seed, sanitize(rc.StallClause)))
 				b, _ := json.MarshalIndent(rf, "", " ")
 				if os.WriteFile(p, b, 0644) == nil {
@@ -236,7 +239,7 @@ func Main(t *testing.T, engines map[string]EngineFunc) {
 			nReplays++
 			sig := v.Sig()
 			rf := &ReplayFile{Prop: prop, Tier: tier, Seed: seed, Tape: rc.Tape.Rec,
-				OrigTapeLen: len(rc.Tape.Rec), Violation: v, Trace: rc.Trace}
+				OrigTapeLen: len(rc.Tape.Rec), Violation: v, Trace: rc.Trace, Engine: os.Getenv("VERIF_ENGINE")}
 			if !minimised[sig] && len(minimised) < 6 && !isKnown(v) {
 				minimised[sig] = true
 				mt, runs, mrc := Minimize(t, eng, prop, tier, seed, rc.Tape.Rec, v,
